@@ -7,6 +7,7 @@ import (
 	"fmt"
 	"io"
 	"strings"
+	"sync/atomic"
 	"time"
 
 	p9p "github.com/frobnitzem/go-p9p"
@@ -24,7 +25,7 @@ func init() {
 		Level: "exploration",
 		Rule: "listings of n in {0,1,2,3,10,100,1000,rnd} entries with name/uid/gid/muid lengths from {0,1,200,4000,rnd}, delivered by the underlying iterator in batches {1,2,7,all,PRNG}; read-count sequences {exactly max entry, max+1, 2*max-1, PRNG in [max,8*max], huge}; " +
 			"wrong-offset probes {0, off-1, off+1, off+count} at every step. Server half: Readdir (NewReaddir/NewReaddir1/NewFixedReaddir) directly and through Session.Open+Read on SFileSys; oracle = concatenation of replies equals the reference encoding of the listing, " +
-			"each reply <= count and made of whole entries, empty read at the end (and again), wrong offsets rejected without disturbing the stream. Client half: CFileSys(CSession) OpenDir iterator over ServeConn(SSession(SFileSys(fs))) with the negotiated msize forced to M " +
+			"each reply <= count and made of whole entries, empty read at the end (and again), wrong offsets rejected without disturbing the stream; two reads of one open directory arriving together at the running offset are served one after the other (one is refused as stale) and the listing stays complete. Client half: CFileSys(CSession) OpenDir iterator over ServeConn(SSession(SFileSys(fs))) with the negotiated msize forced to M " +
 			"in {max+11, max+12, 512, 4096, 65536}, including listings with one entry of DefaultMSize-26..DefaultMSize-11 bytes; read buffers are windows of a larger canary-filled arena (nothing beyond len may be touched); oracle = entries returned equal the server's listing. non-trivial = an entry did not fit the remaining buffer (look-ahead) or a batch boundary fell inside a reply; distinct by (n, batch pattern, count pattern, msize)",
 		Assumptions: []string{
 			"read counts are at least as large as the largest encoded entry (the property's premise); msize-11 >= largest entry on the client half",
@@ -33,7 +34,7 @@ func init() {
 		Shards:   shards(8, 16),
 		Timeout:  timeouts(5*time.Minute, 30*time.Minute),
 		MinEvals: 300,
-		Required: []string{"server_direct_listings", "server_session_listings", "client_listings", "lookahead_events", "bad_offset_probes", "final_empty_reads", "transient_iterator_errors", "spare_capacity_reads", "giant_entry_listings"},
+		Required: []string{"server_direct_listings", "server_session_listings", "client_listings", "lookahead_events", "bad_offset_probes", "final_empty_reads", "transient_iterator_errors", "spare_capacity_reads", "giant_entry_listings", "concurrent_same_offset_reads"},
 		Run:      runC17,
 	})
 }
@@ -44,6 +45,10 @@ type listFS struct {
 	entries []p9p.Dir
 	batches []int // batch sizes; last repeats
 	opens   int
+
+	gate    chan struct{} // if set, every iterator call waits here until it is closed
+	inIter  int32
+	maxIter int32 // largest number of iterator calls in progress at one time
 }
 
 type listEnt struct {
@@ -61,6 +66,17 @@ func (f *listFS) Attach(context.Context, string, string, p9p.AuthFile) (p9p.Dire
 func (f *listFS) iterator() p9p.ReadNext {
 	pos, bi := 0, 0
 	return func(context.Context) ([]p9p.Dir, error) {
+		if f.gate != nil {
+			n := atomic.AddInt32(&f.inIter, 1)
+			for {
+				m := atomic.LoadInt32(&f.maxIter)
+				if n <= m || atomic.CompareAndSwapInt32(&f.maxIter, m, n) {
+					break
+				}
+			}
+			<-f.gate
+			atomic.AddInt32(&f.inIter, -1)
+		}
 		if pos >= len(f.entries) {
 			return nil, nil
 		}
@@ -394,6 +410,11 @@ func runC17(w *mon.W) {
 				w.Violate("mismatch", "C17:open-dir", fmt.Sprintf("Open of the directory failed: %v", err), nil)
 				continue
 			}
+			if len(c.entries) >= 3 && w.Rng.Intn(4) == 0 {
+				if !concurrentReadsC17(w, s, fs, c, desc) {
+					continue
+				}
+			}
 			drainC17(w, sessReader{s, 1}, c, "session", desc)
 			s.Clunk(ctx, 1)
 			w.Count("server_session_listings", 1)
@@ -409,6 +430,88 @@ func runC17(w *mon.W) {
 			clientListC17(w, fs, c, desc)
 		}
 	}
+}
+
+// concurrentReadsC17: two reads of the same open directory at the same (running) offset
+// arrive together. They must be served one after the other: one gets the first entries, the
+// other - its offset now being stale - is refused; the listing read afterwards from the new
+// running offset is complete. Returns false if the rest of the case should be skipped.
+func concurrentReadsC17(w *mon.W, s p9p.Session, fs *listFS, c *c17case, desc string) bool {
+	ctx := context.Background()
+	fs.gate = make(chan struct{})
+	type res struct {
+		n   int
+		err error
+		buf []byte
+	}
+	var rs [2]res
+	done := make(chan struct{}, 2)
+	cnt := 2 * c.maxEnt
+	for i := 0; i < 2; i++ {
+		go func(i int) {
+			buf := make([]byte, cnt)
+			n, err := s.Read(ctx, 1, buf, 0)
+			rs[i] = res{n, err, buf}
+			done <- struct{}{}
+		}(i)
+	}
+	if !settle() {
+		close(fs.gate)
+		w.Inconclusive("watchdog")
+		return false
+	}
+	w.Count("concurrent_same_offset_reads", 1)
+	inside := atomic.LoadInt32(&fs.maxIter)
+	close(fs.gate)
+	both := make(chan struct{})
+	go func() { <-done; <-done; close(both) }()
+	if q := mon.AwaitQuiesce(both); !q.Done {
+		if q.Hung {
+			w.Violate("hang", "C17:concurrent-reads-hang", fmt.Sprintf("two concurrent reads of one open directory did not both return; blocked at %s; %s", q.Sites, desc), nil)
+		}
+		return false
+	}
+	fs.gate = nil
+	if inside > 1 {
+		w.Violate("mismatch", "C17:concurrent-reads-overlap", fmt.Sprintf("%d reads of the same open directory were inside its iterator at the same time; %s", inside, desc), nil)
+		return false
+	}
+	served := -1
+	for i, r := range rs {
+		if r.err == nil && r.n > 0 {
+			if served >= 0 {
+				w.Violate("mismatch", "C17:bad-offset-served:concurrent", fmt.Sprintf("two reads at offset 0 were both served (%d and %d bytes): the second one's offset was stale; %s", rs[served].n, r.n, desc), nil)
+				return false
+			}
+			served = i
+		}
+	}
+	if served < 0 {
+		w.Violate("mismatch", "C17:read-error:concurrent", fmt.Sprintf("neither of two concurrent reads at offset 0 was served: %v / %v; %s", rs[0].err, rs[1].err, desc), nil)
+		return false
+	}
+	// the rest of the listing, sequentially
+	got := append([]byte{}, rs[served].buf[:rs[served].n]...)
+	off := int64(len(got))
+	for steps := 0; steps < len(c.entries)+5; steps++ {
+		buf := make([]byte, cnt)
+		n, err := s.Read(ctx, 1, buf, off)
+		if err != nil {
+			w.Violate("mismatch", "C17:read-error:concurrent", fmt.Sprintf("read at the running offset %d after two concurrent reads failed: %v; %s", off, err, desc), nil)
+			return false
+		}
+		if n == 0 {
+			break
+		}
+		got = append(got, buf[:n]...)
+		off += int64(n)
+	}
+	if !bytes.Equal(got, c.ref) {
+		w.Violate("mismatch", "C17:listing-bytes:concurrent", fmt.Sprintf("after two concurrent reads the listing (%d bytes) differs from the reference encoding (%d bytes) at byte %d; %s", len(got), len(c.ref), firstDiff(got, c.ref), desc), nil)
+	}
+	s.Clunk(ctx, 1)
+	w.Count("server_session_listings", 1)
+	return false
 }
 
 var errEOF = io.EOF
